@@ -4,19 +4,19 @@ package engine
 
 // Contracts for package engine, read by /verif/govc (comment-only file, build tag verif).
 
-//@ func (ProcessValueString).getString [C11]
+//@ func (ProcessValueString).getString [C11 C05]
 //@   ensures result == docToStr(box(ProcessValueString, v))
 //@ func (ProcessValueString).getNumber [C11]
 //@   ensures result == docToNum(box(ProcessValueString, v))
 //@ func (ProcessValueString).getBoolean [C11]
 //@   ensures result == docToBool(box(ProcessValueString, v))
-//@ func (ProcessValueNumber).getString [C11]
+//@ func (ProcessValueNumber).getString [C11 C05]
 //@   ensures result == docToStr(box(ProcessValueNumber, v))
 //@ func (ProcessValueNumber).getNumber [C11]
 //@   ensures result == docToNum(box(ProcessValueNumber, v))
 //@ func (ProcessValueNumber).getBoolean [C11]
 //@   ensures result == docToBool(box(ProcessValueNumber, v))
-//@ func (ProcessValueBoolean).getString [C11]
+//@ func (ProcessValueBoolean).getString [C11 C05]
 //@   ensures result == docToStr(box(ProcessValueBoolean, v))
 //@ func (ProcessValueBoolean).getNumber [C11]
 //@   ensures result == docToNum(box(ProcessValueBoolean, v))
@@ -986,6 +986,11 @@ package engine
 //@   modifies inferred
 //@   ensures step: fresh(result) && stepped(result, old(*current_state))
 //@   ensures extends: result.match.Replacement.hasValue && len(replText(result.match)) >= len(r0) && ssub(replText(result.match), 0, len(r0)) == r0
+// the text a transform contributes: the documented string form of the value of the FIRST statement that
+// returns (no statement before it returned: the loop stops there), or of `true` when none returns
+//@   ensures text: replText(result.match) == r0 ++ docToStr(final_value)
+//@   ensures value: final_value == (pstate.status == RETURNING ? pstate.currentValue : box(ProcessValueBoolean, mk(ProcessValueBoolean, true)))
+//@   loop 2 invariant running: pstate.status != RETURNING && final_value == box(ProcessValueBoolean, mk(ProcessValueBoolean, true))
 //@   loop 1 invariant env != nil && fresh(env) && next_state != nil && fresh(next_state) && varsOk(current_state.variables)
 //@   loop 1 invariant strings: forall k Str :: { select(domain(env), k) } { select(values(env), k) } has(env, k) ==> isStrVar(current_state.variables, k) && env[k] == box(ProcessValueString, mk(ProcessValueString, (current_state.variables.Value[k] as ValueString).Value))
 //@   loop 1 invariant keys: forall j :: { keys[j] } 0 <= j && j < len(keys) ==> has(current_state.variables.Value, keys[j])
